@@ -246,7 +246,7 @@ def change_smoothers(ml, presmoother, postsmoother):
             cit1 = kwargs1.get('c_iterations', DEFAULT_NITER)
             cit2 = kwargs2.get('c_iterations', DEFAULT_NITER)
 
-            if not (fit1 == fit2 and cit1 == cit2):
+            if not (fit1 == fit2 and cit1 == cit2 and _same_parameters(kwargs1, kwargs2)):
                 ml.symmetric_smoothing = False
         elif fn1 != fn2 or not _same_parameters(kwargs1, kwargs2):
             ml.symmetric_smoothing = False
@@ -298,7 +298,7 @@ def change_smoothers(ml, presmoother, postsmoother):
                 cit1 = kwargs1.get('c_iterations', DEFAULT_NITER)
                 cit2 = kwargs2.get('c_iterations', DEFAULT_NITER)
 
-                if not (fit1 == fit2 and cit1 == cit2):
+                if not (fit1 == fit2 and cit1 == cit2 and _same_parameters(kwargs1, kwargs2)):
                     ml.symmetric_smoothing = False
             elif fn1 != fn2 or not _same_parameters(kwargs1, kwargs2):
                 ml.symmetric_smoothing = False
@@ -351,7 +351,7 @@ def change_smoothers(ml, presmoother, postsmoother):
                 cit1 = kwargs1.get('c_iterations', DEFAULT_NITER)
                 cit2 = kwargs2.get('c_iterations', DEFAULT_NITER)
 
-                if not (fit1 == fit2 and cit1 == cit2):
+                if not (fit1 == fit2 and cit1 == cit2 and _same_parameters(kwargs1, kwargs2)):
                     ml.symmetric_smoothing = False
             elif fn1 != fn2 or not _same_parameters(kwargs1, kwargs2):
                 ml.symmetric_smoothing = False
